@@ -250,6 +250,64 @@ def oracle_components(h):
             fails.append(("C09", "%d ComponentUpdated messages for %d writes with %d clients (bound: writes x clients)" % (msgs, len(writes), n),
                           {"phase": ph}))
     fails += oracle_initial_values(h)
+    fails += oracle_wide(h)
+    return fails
+
+
+def oracle_wide(h):
+    """a frame in which one peer changes more than a thousand components at once: every other peer shows, for each of
+    them, a subsequence of what was written, in order, and ends with the last value (C10); after the drain every peer holds
+    it (C02); the traffic stops (C09)"""
+    fails = []
+    binds = {b["h"]: b["uuid"] for b in h.events if b["ev"] == "bind"}
+    for wi, we in enumerate(h.events):
+        if we["ev"] != "wide":
+            continue
+        w, ty = we["writer"], we["ty"]
+        uu = set(binds[x] for x in we["hs"] if x in binds)
+        drain = next(((j, e) for j, e in enumerate(h.events) if j > wi and e["ev"] == "drain" and e.get("wide")), None)
+        end = drain[0] if drain else len(h.events)
+        start_states = {p: last_state(h, wi, p) for p in h.peers()}
+        written = {u: [] for u in uu}
+        for p, st in start_states.items():
+            if p == w and st is not None:
+                for e in st["ents"]:
+                    if e["uuid"] in written:
+                        written[e["uuid"]].append(e["comps"].get(ty))
+        shown = {p: {} for p in h.peers()}
+        for p, st in start_states.items():
+            if st is not None:
+                for e in st["ents"]:
+                    if e["uuid"] in uu:
+                        shown[p][e["uuid"]] = [e["comps"].get(ty)]
+        for e in h.events[wi:end]:
+            if e["ev"] == "op" and e["op"] == "write" and e.get("uuid") in written and e["val"]["ty"] == ty:
+                written[e["uuid"]].append(e["bytes"])
+            elif e["ev"] == "frame" and e.get("state") is not None:
+                sp = shown[e["peer"]]
+                for x in e["state"]["ents"]:
+                    u = x["uuid"]
+                    if u in uu:
+                        v = x["comps"].get(ty)
+                        l = sp.setdefault(u, [])
+                        if not l or l[-1] != v:
+                            l.append(v)
+        if drain and not drain[1]["quiescent"]:
+            fails.append(("C09", "message flow did not stop within the cap after a frame with %d changes" % len(uu), {"writer": w}))
+            continue
+        for p in h.peers():
+            if p == w:
+                continue
+            bad_seq = [u for u in uu if not is_subsequence(shown[p].get(u, []), written[u])]
+            bad_end = [u for u in uu if not shown[p].get(u) or shown[p][u][-1] != written[u][-1]]
+            if bad_seq:
+                fails.append(("C10", "reader %d showed a value sequence that is not a subsequence of the writes (%d of %d components changed in one frame)"
+                              % (p, len(bad_seq), len(uu)), {"writer": w, "uuid": bad_seq[0][:8]}))
+            if bad_end and drain:
+                fails.append(("C10", "reader %d does not end with the last written value (%d of %d components changed in one frame)"
+                              % (p, len(bad_end), len(uu)), {"writer": w, "uuid": bad_end[0][:8]}))
+                fails.append(("C02", "peer %d holds a value different from the most recent write after the drain (%d of %d components changed in one frame)"
+                              % (p, len(bad_end), len(uu)), {"writer": w, "uuid": bad_end[0][:8]}))
     return fails
 
 
@@ -1409,7 +1467,8 @@ def oracle_promo(h):
             for p, s in states.items():
                 uu = [x["uuid"] for x in s["ents"]]
                 if len(uu) != len(set(uu)):
-                    fails.append(("C07", "peer %d holds two live entities with the same uuid" % p, {}))
+                    fails.append(("C07", "peer %d holds two live entities with the same uuid" % p,
+                                  {"only_peer": sorted(set(u[:8] for u in uu if uu.count(u) > 1))[:5]}))
                 if p == host or ref is None:
                     continue
                 if not (s["client_state"] == "Connected" and s["client_connected"]):
@@ -1528,3 +1587,51 @@ def promo_lines(h):
     script.append("q:%d" % reqs)
     out.append("promo %s/handover 0 %s" % (h.id, ";".join(script)))
     return out
+
+
+def chain_lines(h):
+    """every hand-over of a two-peer session (`Slice/Chain.lean`: both peers with both roles): from the first promotion
+    request to the first later join, every frame of either peer with the network's part read off the trace, every request,
+    replayed on the model; roles, flag, client stage and client counts compared after every frame, the former host's
+    snapshot requests at the end of every hand-over"""
+    out = []
+    if h.nclients != 1:
+        return out
+    pis = [i for i, e in enumerate(h.events) if e["ev"] == "promotion"]
+    if not pis or not h.events[pis[0]]["sent"] or h.events[pis[0]]["host"] != 0:
+        return out
+    start = pis[0]
+    end = next((i for i, e in enumerate(h.events) if i > start and e["ev"] == "join_begin"), len(h.events))
+    script = []
+    prev = {0: last_state(h, start, 0), 1: last_state(h, start, 1)}
+    if prev[0] is None or prev[1] is None:
+        return out
+    b = lambda x: "1" if x else "0"
+    reqs = {0: 0, 1: 0}       # snapshot requests *received* by each peer in the current hand-over
+    n_hand = 0
+    for e in h.events[start:end]:
+        if e["ev"] == "promotion":
+            if not e["sent"]:
+                break
+            script.append("r:%d" % e["host"])
+            reqs = {0: 0, 1: 0}
+        elif e["ev"] == "handover":
+            if e["new"] == e["old"]:
+                break                     # the oracle reports it; the model has nothing to compare from here on
+            n_hand += 1
+            script.append("q:%d:%d" % (e["old"], reqs[e["new"]]))
+        elif e["ev"] == "frame" and e["peer"] in (0, 1) and e.get("state") is not None:
+            w, st, pv = e["peer"], e["state"], prev[e["peer"]]
+            kinds = [m["msg"]["k"] for m in e["recv"]]
+            reqs[w] += sum(1 for k in kinds if k == "reqsync")
+            deliver = ("newhost" in kinds) or ("promote" in kinds)
+            accept = st["server_clients"] > pv.get("server_clients", 0)
+            progress = st["client_connected"] and not pv.get("client_connected", False)
+            script.append("f:%d:%s:%s:%s" % (w, b(deliver), b(accept), b(progress)))
+            cli = 0 if not st["client_transport"] else (3 if st["client_connected"] else 1)
+            script.append("x:%d:%s:%s:%d:%d" % (w, b(st["server_transport"]), b(st["tracker"]["promo"]), cli, st["server_clients"]))
+            prev[w] = st
+    if n_hand:
+        out.append("chain %s/chain %s" % (h.id, ";".join(script)))
+    return out
+
